@@ -49,6 +49,9 @@ func (engC17) ProcessStateful() bool { return true }
 func (engC17) Rule() string {
 	return "each run has 1-5 simulated caller tasks (1 = a sequential history) issuing 3-12 registry operations each: RegisterDecorationName(pool name, one of 20 recognisable decorations; overwrites included), Named(pool / built-in / never-registered name), RegisteredDecorationNames(), and SetDecorationNamed(name)+Render. Tasks are real goroutines parked at the verif-tag yield hook before every registry lock and after every unlock; a seeded schedule decides which one proceeds, so operations genuinely overlap in simulated time. Invoke/return of every operation is stamped with the global event sequence number and the recorded history is checked against the statement (registered-value, fail-closed, latest-after-quiescence, sorted/duplicate-free/complete listing). After the tasks finish a final lookup of every pool name and a final listing are appended to the history. A second prong runs the same task scripts as truly parallel goroutines under the Go race detector (see x_race_* keys). Non-trivial = at least two tasks and one registration; distinct = distinct interleavings (hash of the (task, park site) sequence) x scripts."
 }
+func (engC17) Annotate(cov map[string]interface{}) {
+	cov["distinct_measure"] = "distinct_nontrivial counts distinct interleavings: hash of the (task, park site) sequence chosen by the scheduler, xor the script hash"
+}
 func (engC17) Assumptions() []string {
 	return []string{
 		"exactly the statement, no stronger: during concurrent registration of a name any value registered under it (invoked before the lookup returned) is accepted; the latest is only demanded once every registration of that name completed before the lookup was invoked",
@@ -286,6 +289,9 @@ func (engC16) RaceRuns(tier string) int {
 func (engC16) ProcessStateful() bool { return true }
 func (engC16) Rule() string {
 	return "each run has 2-4 simulated caller tasks that each own a table and its wrappers: a seeded build script (SimItems, properties, logging callbacks) followed by 2-6 renders over all formats, decorations and routes (Render(), RenderTo(SimWriter), auto), plus optionally one task that keeps reading the decoration registry and auto.ListStyles() and registers names nobody renders with. Prong A: the tasks are real goroutines parked at every seam crossing (each Write, each callback invocation, each item method call, each row-class call, each registry lock boundary) and a seeded schedule decides who proceeds; every output and the final table snapshot of every task must equal what the same task script produces when executed alone. Prong B: the same task scripts run as truly parallel goroutines with no scheduler under the Go race detector (x_race_* keys). Non-trivial = at least two table-owning tasks rendered and at least one context switch happened inside a render; distinct = distinct interleavings (hash of the (task, park site) sequence) x scripts."
+}
+func (engC16) Annotate(cov map[string]interface{}) {
+	cov["distinct_measure"] = "distinct_nontrivial counts distinct interleavings: hash of the (task, park site) sequence chosen by the scheduler, xor the script hash"
 }
 func (engC16) Assumptions() []string {
 	return []string{
